@@ -76,7 +76,7 @@ func cmdArrayRun(args []string) {
 			for k, op := range ops {
 				w.ExecSilent(op)
 				fl, rc := w.boundaryFlags("a")
-				wr.Write(map[string]any{"t": t, "n": k + 1, "flags": fl, "rc": rc})
+				wr.Write(map[string]any{"t": t, "n": k + 1, "flags": fl, "rc": rc, "ic": append([]int{}, lastInnerCounts...)})
 			}
 			return
 		}
